@@ -21,6 +21,11 @@ Transcribed:
   `_openFile()` (creates the new current file, `size = 0`).  (`os.access` is assumed to say yes.)
 * `listLogs()`: the sorted indices `≥ 1` present — here: descending filter of `maxIdx … 1` by existence.
 * `reopen()`: close; `_openFile()`.
+* a `write(text)` whose text has no UTF-8 encoding (lone surrogate): `failTrace` — `shouldRotate()`/`rotate()` have
+  run when `data.encode("utf8")` raises `UnicodeEncodeError`; nothing is written, `self.size += len(data)` is not reached.
+* `rotate()` while `os.access(directory, W_OK) and os.access(path, W_OK)` is false returns at once: the operation
+  runs under `noRotate cfg` (as if `rotateLength` were unset) — `size` goes on counting, so the rotation happens
+  at the first write after the permissions are back.
 -/
 namespace Twisted.Fs.LogFile
 open Twisted.Fs
@@ -71,5 +76,25 @@ def opTrace (cfg : Cfg) (size : Nat) (fs : Fs) : Op → List Prim × Nat
       (rotateTrace cfg.maxRot fs ++ [.write (rot 0) d], 0 + n)
     else ([.write (rot 0) d], size + n)
   | .reopen => openFile fs
+
+/-- `write(text)` refused by `data.encode("utf8")`: the rotation (if due) has happened, nothing else -/
+def failTrace (cfg : Cfg) (size : Nat) (fs : Fs) : List Prim × Nat :=
+  if cfg.rotateLength ≠ 0 ∧ cfg.rotateLength ≤ size then (rotateTrace cfg.maxRot fs, 0) else ([], size)
+
+/-- the configuration `rotate()` effectively runs under while the directory / the file is not writable -/
+def noRotate (cfg : Cfg) : Cfg := { cfg with rotateLength := 0 }
+
+/-- operations of the enlarged history language -/
+inductive XOp where
+  | op (o : Op)                 -- a write that is performed, or a reopen
+  | fail                        -- a write refused by the encoder
+  | perm (readOnly : Bool)      -- the administrator takes away / gives back write permission (no action of the process)
+deriving Repr, DecidableEq
+
+/-- one step of a live `LogFile`: `(size, readOnly)` and the directory → (primitives, new `(size, readOnly)`) -/
+def xopTrace (cfg : Cfg) (size : Nat) (ro : Bool) (fs : Fs) : XOp → List Prim × Nat × Bool
+  | .op o => let r := opTrace (if ro then noRotate cfg else cfg) size fs o; (r.1, r.2, ro)
+  | .fail => let r := failTrace (if ro then noRotate cfg else cfg) size fs; (r.1, r.2, ro)
+  | .perm b => ([], size, b)
 
 end Twisted.Fs.LogFile
